@@ -160,9 +160,9 @@ func (r *Run) SampleN() int {
 	return len(r.samples)
 }
 
-func (r *Run) Rule(s string)       { r.mu.Lock(); r.rule = s; r.mu.Unlock() }
-func (r *Run) Assume(s string)     { r.mu.Lock(); r.assumptions = append(r.assumptions, s); r.mu.Unlock() }
-func (r *Run) Exhaustive(b bool)   { r.mu.Lock(); r.exhaustive = b; r.mu.Unlock() }
+func (r *Run) Rule(s string)        { r.mu.Lock(); r.rule = s; r.mu.Unlock() }
+func (r *Run) Assume(s string)      { r.mu.Lock(); r.assumptions = append(r.assumptions, s); r.mu.Unlock() }
+func (r *Run) Exhaustive(b bool)    { r.mu.Lock(); r.exhaustive = b; r.mu.Unlock() }
 func (r *Run) Note(k string, v any) { r.mu.Lock(); r.extra[k] = v; r.mu.Unlock() }
 
 // Counter returns a named counter that ends up in coverage.
